@@ -34,7 +34,7 @@ pub mod stdx {
 
   pub mod thread {
     pub use crate::facade::{
-      current, park, park_timeout, sleep, spawn, yield_now, Builder, JoinHandle, Thread, ThreadId,
+      current, panicking, park, park_timeout, sleep, spawn, yield_now, Builder, JoinHandle, Thread, ThreadId,
     };
     pub use std::thread::*;
   }
